@@ -3,6 +3,7 @@ package c12
 
 import (
 	"errors"
+	"html/template"
 	"strconv"
 	"strings"
 
@@ -19,6 +20,7 @@ func init() {
 	vrt.Register("C12_rejected", Rejected)
 	vrt.Register("C12_results", Results)
 	vrt.Register("C12_evaluation_order", EvaluationOrder)
+	vrt.Register("C12_nested_calls", NestedCalls)
 }
 
 func itoa(n int) string { return strconv.Itoa(n) }
@@ -49,6 +51,18 @@ func (r *rec) fany(v interface{}) string {
 func (r *rec) ftri(n int, s string, b bool) string {
 	r.log = append(r.log, "ftri("+itoa(n)+","+s+","+b2s(b)+")")
 	return "rtri"
+}
+func (r *rec) fpair(a, b string) string {
+	r.log = append(r.log, "fpair("+a+","+b+")")
+	return a + "|" + b
+}
+func (r *rec) fidstr(s string) string {
+	r.log = append(r.log, "fidstr("+s+")")
+	return s
+}
+func (r *rec) fhtml(h template.HTML) string {
+	r.log = append(r.log, "fhtml("+string(h)+")")
+	return "rhtml"
 }
 func (r *rec) fp(p *rec, m map[string]int, xs []int) string {
 	r.log = append(r.log, "fp("+b2s(p == nil)+","+b2s(m == nil)+","+b2s(xs == nil)+")")
@@ -157,6 +171,9 @@ func ctxWith(r *rec) *plush.Context {
 	ctx.Set("fany", r.fany)
 	ctx.Set("ftri", r.ftri)
 	ctx.Set("fp", r.fp)
+	ctx.Set("fpair", r.fpair)
+	ctx.Set("fidstr", r.fidstr)
+	ctx.Set("fhtml", r.fhtml)
 	ctx.Set("fm", r.fm)
 	ctx.Set("fh", r.fh)
 	ctx.Set("fhi", r.fhi)
@@ -420,6 +437,56 @@ func EvaluationOrder() {
 	vrt.Assert(len(o.log) == k, "each argument expression is evaluated exactly once")
 	for i := 0; i < len(o.log); i++ {
 		vrt.Assert(o.log[i] == i, "arguments are evaluated left to right")
+	}
+	vrt.Cover("done")
+}
+
+// Go calls as arguments of Go calls, in any position, after earlier calls of the same render
+func NestedCalls() {
+	r := &rec{}
+	ctx := ctxWith(r)
+	a, b, c := vrt.BytesIn(1, alpha), vrt.BytesIn(1, alpha), vrt.BytesIn(1, alpha)
+	n := vrt.Int()
+	ctx.Set("a", a)
+	ctx.Set("b", b)
+	ctx.Set("c", c)
+	ctx.Set("n", n)
+	var in, want string
+	var wantLog []string
+	switch vrt.Choice(6) {
+	case 0:
+		in = "<%= fpair(a, b) %>;<%= fpair(a, fidstr(b)) %>"
+		want = a + "|" + b + ";" + a + "|" + b
+		wantLog = []string{"fpair(" + a + "," + b + ")", "fidstr(" + b + ")", "fpair(" + a + "," + b + ")"}
+	case 1:
+		in = "<%= ftri(n, a, true) %>;<%= fpair(fidstr(a), fidstr(b)) %>"
+		want = "rtri;" + a + "|" + b
+		wantLog = []string{"ftri(" + itoa(n) + "," + a + ",true)", "fidstr(" + a + ")", "fidstr(" + b + ")", "fpair(" + a + "," + b + ")"}
+	case 2:
+		in = "<%= for (x) in [a, b] { %><%= fpair(c, fidstr(x)) %>;<% } %>"
+		want = c + "|" + a + ";" + c + "|" + b + ";"
+		wantLog = []string{"fidstr(" + a + ")", "fpair(" + c + "," + a + ")", "fidstr(" + b + ")", "fpair(" + c + "," + b + ")"}
+	case 3:
+		in = "<%= fpair(a, fpair(b, fidstr(c))) %>"
+		want = a + "|" + b + "|" + c
+		wantLog = []string{"fidstr(" + c + ")", "fpair(" + b + "," + c + ")", "fpair(" + a + "," + b + "|" + c + ")"}
+	case 4:
+		in = "<%= fmh(n, {k: 1}) %>;<%= fpair(a, fidstr(b)) { %>blk<% } %>"
+		want = "rmh;" + a + "|" + b
+		wantLog = []string{"fmh(" + itoa(n) + ",{k:int:1},noblock)", "fidstr(" + b + ")", "fpair(" + a + "," + b + ")"}
+	default:
+		in = "<%= fv(1, 2, 3) %>;<%= fsv(a, fidstr(b), fidstr(c)) %>"
+		want = "rv;rsv"
+		wantLog = []string{"fv(1,2,3)", "fidstr(" + b + ")", "fidstr(" + c + ")", "fsv(" + a + ";" + b + "," + c + ")"}
+	}
+	out, err := render(in, ctx)
+	vrt.Assert(err == nil, "nested helper calls render")
+	vrt.Assert(out == want, "nested helper calls: every call yields its own result")
+	vrt.Assert(len(r.log) == len(wantLog), "every helper is invoked exactly once per call")
+	for i := 0; i < len(wantLog); i++ {
+		if i < len(r.log) {
+			vrt.Assert(r.log[i] == wantLog[i], "each helper receives exactly its own arguments, inner calls first")
+		}
 	}
 	vrt.Cover("done")
 }
